@@ -103,10 +103,12 @@ ASSUME = [
     "get_rotate: cos/sin enter the theorems as an opaque pair (c, s); the model side of the correspondence calls the same libm",
     "sources are at least 1x1; point coordinates within the ptrdiff_t range (the casts in iround/ifloor are UB otherwise)",
     "scale_lanczos / lanczos_at (image_processing/scaling.hpp) are not part of the property's statement and are not modelled",
+    "float evaluation of the bilinear sampler: proved RELATIVE TO FloatSpec only (Props/C17Float.lean, C17_float_*: weights sum within [1-6eps,1+7eps], lo-1 <= result <= hi); "
+    "OPEN FINDING outside this generator's reach: off the binary grid the truncating cast can return min-1 (constant 255 image -> 254, C17_float_truncates_below_min_witness)",
 ]
 
 def run(ctx, ops=None):
-    obligations, discharged = vlib.standard_proof_steps(ctx)
+    obligations, discharged = vlib.standard_proof_steps(ctx, extra_props=["GilVerif.Props.C17Float"])
     if any(b[0] == "theorem" and not b[1].startswith("C17_") for b in ctx.broken): discharged = 0
     if not os.path.isfile(os.path.join(ctx.include, "boost/gil/extension/numeric/sampler.hpp")):
         ctx.broken.append(("harness", "include root", "%s does not hold the headers under test" % ctx.include))
